@@ -1160,13 +1160,39 @@ func hRunHistory(t *testing.T, out *vOut, r *rand.Rand, id int) {
 		sort.Strings(q)
 		return q
 	}
+	// Proofs/CtrlProgressP.v (C07_resync_loop_terminates): with a configuration loaded and no
+	// explicitly requested addresses, reconciler steps whose writes succeed are at most
+	// |queue| + 2*|queue and API services| + 1; the implementation is held to that bound
 	drain := func() bool {
-		for i := 0; i < 60 && !quiescent(); i++ {
+		budget, proved := 60, len(w.pools) > 0
+		univ := map[string]bool{}
+		for k := range w.queue {
+			univ[k] = true
+		}
+		for _, nm := range w.existing() {
+			univ[nm] = true
+			if w.specs[nm].WantKind != "" {
+				proved = false
+			}
+		}
+		if proved {
+			budget = len(w.queue) + 2*len(univ) + 1
+		}
+		steps := 0
+		for i := 0; i < budget && !quiescent(); i++ {
 			q := pendingNames()
 			if w.reload && (len(q) == 0 || r.Intn(2) == 0) {
 				doReload(-1)
 			} else if len(q) > 0 {
 				doSvc(q[r.Intn(len(q))], false)
+			}
+			steps++
+		}
+		if proved {
+			out.Stat("drains_under_proved_bound", 1)
+			out.Stat("drain_steps_under_proved_bound", steps)
+			if !quiescent() {
+				fail("ctrl-exceeds-proved-settling-bound", fmt.Sprintf("%d reconciler steps with successful writes and still pending work; the proved bound is %d", steps, budget))
 			}
 		}
 		return quiescent()
